@@ -27,7 +27,9 @@ REQUIRED = ["entries_injective", "einv_fresh", "bit_set_get", "bit_total", "serv
             "fact_register_and_verify_order",
             # wire layer (deepening round): NutsProofs.Props.C11Wire
             "atoi_itoa_roundtrip", "atoi_fits_int", "index_strings_injective", "validated_entry_fields", "issued_entry_validates",
-            "validated_entry_never_atoi_error", "wire_entries_distinct", "fact_entry_validate_order", "fact_entry_literal_and_strconv_sites"]
+            "validated_entry_never_atoi_error", "wire_entries_distinct", "fact_entry_validate_order", "fact_entry_literal_and_strconv_sites",
+            # validAt (NutsProofs.Props.C11ValidAt)
+            "revoked_whatever_valid_at", "received_revocation_refused_at_every_valid_at", "revoked_forever_network_at_every_valid_at"]
 
 ENTRY_RE = re.compile(r"(n\d+/\S+/\d+) (\d+) wf=(\w+)")
 
@@ -355,10 +357,15 @@ def voracle(ops, impl):
                     report("C11:credential-accepted-while-the-revocation-store-cannot-be-read",
                            f"{cid} ({'revocation present' if cid in accepted else 'no revocation'}): {line}", i)
                 continue
+            if op.get("at"):
+                stats["verify-with-explicit-validAt"] += 1
             if cid in accepted:
                 stats["verify-with-revocation-present"] += 1
+                if op.get("at"):
+                    stats["verify-with-revocation-present-and-explicit-validAt"] += 1
                 if line != "vverify revoked":
-                    report("C11:revocation-not-effective-or-not-permanent", f"{cid} has an accepted revocation, answer {line}", i)
+                    report("C11:revocation-not-effective-or-not-permanent", f"{cid} has an accepted revocation, answer {line}"
+                           + (f" (Verify asked with validAt = now{op['at']:+d} min; a received revocation counts for every validAt)" if op.get("at") else ""), i)
                 elif iss not in accepted[cid]:
                     stats["foreign-prefix:revoked-by-prefix-owner"] += 1
                     report("C11:foreign-id-prefix:revoked-by-prefix-owner",
@@ -590,7 +597,7 @@ def run_verifier_harness(ctx):
 
 def run(ctx):
     facts = ctx.facts()
-    thms = ctx.build_and_audit(["NutsProofs.Props.C11", "NutsProofs.Props.C11Wire"])
+    thms = ctx.build_and_audit(["NutsProofs.Props.C11", "NutsProofs.Props.C11Wire", "NutsProofs.Props.C11ValidAt"])
     for r in REQUIRED:
         if not any(t.endswith("Props." + r) for t in thms):
             ctx.oblige("thm-present:" + r, False, "theorem missing or its module does not build")
